@@ -72,17 +72,29 @@ func edgeSpecs(seed uint64, thorough bool) []*EdgeSpec {
 		minDepth := int(head-last) + 1 // reaches block 8191
 		depth := minDepth + r.Intn(3-minDepth+1)
 		backend := []string{"new", "legacy"}[(seed+uint64(r.Intn(2)))%2]
-		return []*EdgeSpec{{Backend: backend, Head: head, Depth: depth, LenB: 1 + r.Intn(3), Salt: 1 + uint64(r.Intn(8))}}
+		return []*EdgeSpec{{Backend: backend, Head: head, Depth: depth, LenB: edgeLenB(r, head, depth), Salt: 1 + uint64(r.Intn(8))}}
 	}
 	var out []*EdgeSpec
 	for _, backend := range []string{"new", "legacy"} {
 		for h := uint64(0); h < 3; h++ {
 			for depth := 1; depth <= 3; depth++ {
-				out = append(out, &EdgeSpec{Backend: backend, Head: last + h, Depth: depth, LenB: 1 + r.Intn(3), Salt: 1 + uint64(r.Intn(8))})
+				out = append(out, &EdgeSpec{Backend: backend, Head: last + h, Depth: depth, LenB: edgeLenB(r, last+h, depth), Salt: 1 + uint64(r.Intn(8))})
 			}
 		}
 	}
 	return out
+}
+
+// edgeLenB: fork B fills the window again (reaches block 8191, so the window is persisted a second time)
+// whenever the reverts emptied its last block, and goes 0..2 blocks further.
+func edgeLenB(r *hx.RNG, head uint64, depth int) int {
+	last := uint64(core.NumBlocksPerFilter) - 1
+	forkFrom := head - uint64(depth) + 1
+	minB := 1
+	if forkFrom <= last {
+		minB = int(last-forkFrom) + 1
+	}
+	return minB + r.Intn(3)
 }
 
 type edgeOut struct {
